@@ -55,8 +55,10 @@ type simAdapter struct {
 	closed  bool
 	subs    []func(string)
 	subOwner []*World
+	subAt    []uint64
 	calls   []adCall
 	faultsOn bool
+	pendingCut bool
 	inc     int
 	// counters
 	FiredEnq, FiredDeq, FiredAck, Dups, Delays int
@@ -71,7 +73,11 @@ func (wd *World) adapterFor(qc QCfg, prio bool) *simAdapter {
 	if wd.root.sharedAd != nil {
 		return wd.root.sharedAd
 	}
-	return &simAdapter{root: wd.root, prio: prio, cfg: qc, faultsOn: true}
+	a := &simAdapter{root: wd.root, prio: prio, cfg: qc, faultsOn: true}
+	if qc.Kind >= qkDist && wd.root.cfg.Consumers > 0 {
+		wd.root.sharedAd = a
+	}
+	return a
 }
 
 // hb is the adapter's internal lock seen from outside: an acquire on entry and
@@ -81,6 +87,16 @@ func (a *simAdapter) hb() { a.real.Lock(); a.real.Unlock() }
 
 func (a *simAdapter) log(op string, sub int, id string, ok bool) {
 	a.calls = append(a.calls, adCall{Seq: a.root.rec.stamp(), Op: op, Sub: sub, ID: id, OK: ok, Task: simrt.CurID()})
+	a.pendingCut = true
+}
+
+// cutPoint: the process may die right after any adapter call (called at the end
+// of each method, when the adapter's own state is consistent).
+func (a *simAdapter) cutPoint() {
+	if a.pendingCut {
+		a.pendingCut = false
+		a.root.cut()
+	}
 }
 
 func subOfBytes(b []byte) int {
@@ -96,6 +112,7 @@ func subOfBytes(b []byte) int {
 func (a *simAdapter) enqueue(item any, prio int) bool {
 	simrt.YieldAlways()
 	a.hb()
+	defer a.cutPoint()
 	defer a.hb()
 	b, isBytes := item.([]byte)
 	sub := -1
@@ -153,6 +170,7 @@ func (a *simAdapter) head() int {
 func (a *simAdapter) DequeueWithAckId() (any, bool, string) {
 	simrt.YieldAlways()
 	a.hb()
+	defer a.cutPoint()
 	defer a.hb()
 	i := a.head()
 	if i < 0 {
@@ -182,6 +200,7 @@ func (a *simAdapter) DequeueWithAckId() (any, bool, string) {
 func (a *simAdapter) Dequeue() (any, bool) {
 	simrt.YieldAlways()
 	a.hb()
+	defer a.cutPoint()
 	defer a.hb()
 	i := a.head()
 	if i < 0 {
@@ -201,6 +220,7 @@ func (a *simAdapter) Dequeue() (any, bool) {
 func (a *simAdapter) Acknowledge(id string) bool {
 	simrt.YieldAlways()
 	a.hb()
+	defer a.cutPoint()
 	defer a.hb()
 	if a.faultsOn && a.cfg.FAck > 0 && simrt.Chance(a.cfg.FAck) {
 		a.FiredAck++
@@ -225,6 +245,7 @@ func (a *simAdapter) Acknowledge(id string) bool {
 func (a *simAdapter) Len() int {
 	simrt.YieldAlways()
 	a.hb()
+	defer a.cutPoint()
 	defer a.hb()
 	return len(a.pending)
 }
@@ -232,6 +253,7 @@ func (a *simAdapter) Len() int {
 func (a *simAdapter) Values() []any {
 	simrt.YieldAlways()
 	a.hb()
+	defer a.cutPoint()
 	defer a.hb()
 	out := make([]any, 0, len(a.pending))
 	idx := make([]int, len(a.pending))
@@ -260,6 +282,7 @@ func (a *simAdapter) Values() []any {
 func (a *simAdapter) Purge() {
 	simrt.YieldAlways()
 	a.hb()
+	defer a.cutPoint()
 	defer a.hb()
 	for _, e := range a.pending {
 		a.root.rec.adPurged(a, e.Sub)
@@ -271,6 +294,7 @@ func (a *simAdapter) Purge() {
 func (a *simAdapter) Close() error {
 	simrt.YieldAlways()
 	a.hb()
+	defer a.cutPoint()
 	defer a.hb()
 	a.closed = true
 	return nil
@@ -279,10 +303,16 @@ func (a *simAdapter) Close() error {
 func (a *simAdapter) Subscribe(fn func(action string)) {
 	simrt.YieldAlways()
 	a.hb()
+	defer a.cutPoint()
 	defer a.hb()
 	a.subs = append(a.subs, fn)
 	a.notifies = append(a.notifies, 0)
-	a.subOwner = append(a.subOwner, a.root.binding)
+	owner := a.root.binding
+	if owner == nil {
+		owner = a.root
+	}
+	a.subOwner = append(a.subOwner, owner)
+	a.subAt = append(a.subAt, a.root.rec.stamp())
 }
 
 // notify announces one successful enqueue to every subscriber, each through its
@@ -338,6 +368,7 @@ func (a *simAdapter) recoverAfterCrash() {
 	a.inc++
 	a.subs = nil
 	a.subOwner = nil
+	a.subAt = nil
 	a.notifies = nil
 	a.faultsOn = false
 }
